@@ -305,6 +305,7 @@ func subkeyAlgos() []algoChoice {
 		{"ecdsa-p256", func(t uint32, r *Rng) *pkey { return newECKey(oidP256, 19, t, r, nil) }},
 		{"eddsa", func(t uint32, r *Rng) *pkey { return newEdDSAKey(t, r) }},
 		{"dsa-1024", func(t uint32, r *Rng) *pkey { return newDSAKey(0, t, r) }},
+		{"rsa-small", func(t uint32, r *Rng) *pkey { return newRSAKey(1+r.Intn(8), 1, t) }},
 	}
 }
 
@@ -1195,7 +1196,7 @@ func c11Keys(c *Ctx) []c11Key {
 	specs := []spec{
 		{"eddsa", []string{"cv25519", "eddsa"}, 2, false},
 		{"ecdsa-p256", []string{"ecdh-p256", "ecdsa-p256"}, 1, false},
-		{"rsa-1024", []string{"rsa"}, 2, false},
+		{"rsa-1024", []string{"rsa-small"}, 2, false},
 		{"dsa-1024", []string{"elgamal"}, 1, false},
 		{"ecdsa-p384", []string{"ecdh-p384"}, 1, false},
 		{"eddsa", []string{"cv25519"}, 1, true},
@@ -1203,13 +1204,10 @@ func c11Keys(c *Ctx) []c11Key {
 	if c.Thorough() {
 		specs = append(specs,
 			spec{"ecdsa-p521", []string{"ecdh-p521", "rsa-encrypt-only"}, 3, false},
-			spec{"rsa-2048", []string{"rsa", "dsa-1024"}, 2, false},
-			spec{"dsa-2048-256", []string{"cv25519"}, 1, false},
 			spec{"rsa-1031", []string{"eddsa"}, 4, true},
-			spec{"rsa-sign-only", []string{"rsa-encrypt-only"}, 1, false})
-		for i := 0; i < 13; i++ {
-			specs = append(specs, spec{pa[(i*5)%len(pa)].name, []string{sa[i%len(sa)].name, sa[(i*3+1)%len(sa)].name}, 1 + i%4, i%5 == 0})
-		}
+			spec{"rsa-sign-only", []string{"rsa-encrypt-only"}, 1, false},
+			spec{"dsa-2048-256", []string{"cv25519"}, 1, false},
+			spec{"rsa-1536", []string{"elgamal", "dsa-1024"}, 2, false})
 	}
 	var out []c11Key
 	for _, s := range specs {
